@@ -168,7 +168,7 @@ StepWrite(s, ev, at) ==
         must == C!MustAccept(w, ky)
         t   == IF acc THEN C!Target(w, ky) ELSE <<>>
         w1 == IF acc /\ tag = "ok"
-              THEN [w EXCEPT !.alive[t].vals = C!SetVals(@, {ev.col + 1}, ev.p)] ELSE w
+              THEN [w EXCEPT !.alive[t].vals = C!SetVals(w.alive[t].a, @, {ev.col + 1}, ev.p)] ELSE w
         viol1 ==
              If(tag = "ok" /\ ~acc, {V(C!WrongAccept(w, ky), at, "mutable access accepted a key that must be rejected")})
         \cup If(tag = "n" /\ must, {V(C!WrongReject(w, ky), at, "mutable access rejected a key that must be accepted")})
@@ -358,8 +358,20 @@ Step0(s, ev, at) ==
 
 \* C10: the state after a panic that unwound out of an operation must satisfy everything else, so
 \* whatever is violated right after a panicking operation is (also) a C10 violation
+\* C04 / C13 for columns whose type has no drop glue: Clone::clone runs once per live cell of a
+\* cloned world / archetype (at most that often when the clone panics), and in no other operation.
+NcViol(s, ev, at) ==
+    IF "nc" \notin DOMAIN ev THEN {}
+    ELSE LET isClone == ev.op = "clone" /\ ev.w \in DOMAIN s.W
+             isArch  == ev.op = "arch_clone_from" /\ ev.w \in DOMAIN s.W
+             hi == IF isClone THEN C!NCount(s.W[ev.w]) ELSE IF isArch THEN C!NCountOn(s.W[ev.w], ev.a) ELSE 0
+             lo == IF (isClone \/ isArch) /\ ev.out[1] = "ok" THEN hi ELSE 0
+         IN If(ev.nc < lo \/ ev.nc > hi,
+               {V(<<"C04", "C13">>, at, "Clone::clone of a component without drop glue did not run exactly once per live cell of the cloned world (or ran in an operation that clones nothing)")})
+
 Step(s, ev, at) ==
-    LET r == Step0(s, ev, at)
+    LET r0 == Step0(s, ev, at)
+        r  == [r0 EXCEPT !.v = @ \cup NcViol(s, ev, at)]
         panicked == "out" \in DOMAIN ev /\ ev.op # "crash" /\ ev.out[1] = "p"
     IN IF panicked
        THEN [r EXCEPT !.v = {[x EXCEPT !.p = IF "C10" \in SeqSet(@) \/ "TOOL" \in SeqSet(@) THEN @ ELSE @ \o <<"C10">>] : x \in @}]
